@@ -1,9 +1,41 @@
 (* C19 - derived networks (theorems are added from Proofs/DerivedProofs.v). *)
 From Coq Require Import String ZArith List Bool.
 From XV Require Import Base.Label Base.LSet Base.ODict Base.Attr Base.Outcome Model.Hypergraph
-  Model.HgCheck Model.Copy Model.Derived.
+  Model.HgCheck Model.Copy Model.Derived Proofs.HgViews Proofs.HgInv Proofs.Build Proofs.DerivedProofs.
 Import ListNotations.
 Open Scope Z_scope.
+
+(* subhypergraph keeps precisely the requested edges that lie inside the requested nodes, with
+   their members and attributes, over exactly the requested nodes (keep_isolates = True) *)
+Theorem C19_subhypergraph_exact : forall nodes edges s, Inv s -> NoNone s ->
+  let r := subhypergraph nodes edges true s in
+  let t := st_of r in
+  let nset := sub_nset nodes s in
+  let kept := filter (fun e => ssubset (mems s e) nset) (sub_eset edges s) in
+  Proofs.HgErrors.out_of r = Ok /\ Inv t /\
+  nkeys t = nset /\ ekeys t = kept /\
+  (forall e, In e kept -> (exists M, get e (h_edge t) = Some M /\ seteq M (mems s e)) /\
+                          get e (h_eattr t) = Some (aupdate [] (aupdate [] (geta e (h_eattr s))))) /\
+  (forall n, In n nset -> get n (h_nattr t) = Some (aupdate [] (aupdate [] (geta n (h_nattr s))))) /\
+  h_net t = h_net s.
+Proof. exact subhypergraph_exact. Qed.
+Print Assumptions C19_subhypergraph_exact.
+
+(* the lemma the characterisations rest on: filling a network through add_edges_from (format 4)
+   with distinct new ids yields exactly the listed edges, members, attributes and nodes *)
+Theorem C19_build_edges : forall L a s, Inv s -> fresh_items s L ->
+  let r := add_edges_from (EB4 L) a s in
+  let t := st_of r in
+  Proofs.HgErrors.out_of r = Ok /\ snd r = O /\ Inv t /\ ekeys t = ekeys s ++ map item_id L /\
+  (forall it, In it L -> (exists M, get (item_id it) (h_edge t) = Some M /\ seteq M (item_ms it) /\ NoDup M) /\
+                         get (item_id it) (h_eattr t) = Some (aupdate [] (aupdate a (item_attr it)))) /\
+  (forall e, In e (ekeys s) -> get e (h_edge t) = get e (h_edge s) /\ get e (h_eattr t) = get e (h_eattr s)) /\
+  (forall x, In x (nkeys t) <-> In x (nkeys s) \/ exists it, In it L /\ In x (item_ms it)) /\
+  (exists l, nkeys t = nkeys s ++ l) /\
+  (forall n, In n (nkeys s) -> get n (h_nattr t) = get n (h_nattr s)) /\
+  h_net t = h_net s.
+Proof. exact build_edges_effect. Qed.
+Print Assumptions C19_build_edges.
 
 Example C19_nonvacuous :
   let s := run [OAddEdgesFrom (EB1 [[LInt 1; LInt 2; LInt 3]; [LInt 3; LInt 4]; [LInt 5]]) []; OAddNode (LInt 9) []] hg_empty in
